@@ -11,28 +11,68 @@ use std::process::{Command, Stdio};
 use std::time::{Duration, Instant};
 
 /// Serialises a `J` with members in their stored (insertion) order — serde_json's own map would sort.
-struct Ordered<'a>(&'a J);
+///
+/// The second field is the integer width policy, i.e. which Rust integer type a typed value would
+/// have had: 0 = always 64 bits (what `serde_json::Value` does), 1 = the narrowest type the number fits
+/// (u8/u16/u32, i8/i16/i32), 2 = 32 bits where the number fits. With policy 1 or 2, member names that
+/// are small decimal numbers are written as integer map keys of that width, too.
+struct Ordered<'a>(&'a J, u8);
+
+fn ser_u<S: serde::Serializer>(s: S, u: u64, policy: u8) -> Result<S::Ok, S::Error> {
+    match policy {
+        1 if u <= u8::MAX as u64 => s.serialize_u8(u as u8),
+        1 if u <= u16::MAX as u64 => s.serialize_u16(u as u16),
+        1 | 2 if u <= u32::MAX as u64 => s.serialize_u32(u as u32),
+        _ => s.serialize_u64(u),
+    }
+}
+
+fn ser_i<S: serde::Serializer>(s: S, i: i64, policy: u8) -> Result<S::Ok, S::Error> {
+    match policy {
+        1 if i >= i8::MIN as i64 && i <= i8::MAX as i64 => s.serialize_i8(i as i8),
+        1 if i >= i16::MIN as i64 && i <= i16::MAX as i64 => s.serialize_i16(i as i16),
+        1 | 2 if i >= i32::MIN as i64 && i <= i32::MAX as i64 => s.serialize_i32(i as i32),
+        _ => s.serialize_i64(i),
+    }
+}
+
+/// A member name that is the shortest decimal spelling of a small number (what an integer map key gives).
+fn as_int_key(k: &str) -> Option<u64> {
+    let n: u64 = k.parse().ok()?;
+    (n <= u32::MAX as u64 && n.to_string() == k).then_some(n)
+}
+
+struct IntKey(u64, u8);
+impl Serialize for IntKey {
+    fn serialize<S: serde::Serializer>(&self, s: S) -> Result<S::Ok, S::Error> {
+        ser_u(s, self.0, self.1)
+    }
+}
 
 impl Serialize for Ordered<'_> {
     fn serialize<S: serde::Serializer>(&self, s: S) -> Result<S::Ok, S::Error> {
+        let p = self.1;
         match self.0 {
             J::Null => s.serialize_unit(),
             J::Bool(b) => s.serialize_bool(*b),
-            J::U(u) => s.serialize_u64(*u),
-            J::I(i) => s.serialize_i64(*i),
+            J::U(u) => ser_u(s, *u, p),
+            J::I(i) => ser_i(s, *i, p),
             J::F(f) => s.serialize_f64(*f),
             J::S(x) => s.serialize_str(x),
             J::A(a) => {
                 let mut seq = s.serialize_seq(Some(a.len()))?;
                 for v in a {
-                    seq.serialize_element(&Ordered(v))?;
+                    seq.serialize_element(&Ordered(v, p))?;
                 }
                 seq.end()
             }
             J::O(m) => {
                 let mut map = s.serialize_map(Some(m.len()))?;
                 for (k, v) in m {
-                    map.serialize_entry(k, &Ordered(v))?;
+                    match as_int_key(k) {
+                        Some(n) if p > 0 => map.serialize_entry(&IntKey(n, p), &Ordered(v, p))?,
+                        _ => map.serialize_entry(k, &Ordered(v, p))?,
+                    }
                 }
                 map.end()
             }
@@ -41,10 +81,24 @@ impl Serialize for Ordered<'_> {
 }
 
 fn sut_canon(j: &J) -> Result<Vec<u8>, String> {
+    sut_canon_w(j, 0)
+}
+
+fn sut_canon_w(j: &J, width_policy: u8) -> Result<Vec<u8>, String> {
     let mut data = Vec::new();
     let mut ser = serde_json::Serializer::with_formatter(&mut data, olpc_cjson::CanonicalFormatter::new());
-    Ordered(j).serialize(&mut ser).map_err(|e| e.to_string())?;
+    Ordered(j, width_policy).serialize(&mut ser).map_err(|e| e.to_string())?;
     Ok(data)
+}
+
+fn has_narrow_int(j: &J) -> bool {
+    match j {
+        J::U(u) => *u <= u32::MAX as u64,
+        J::I(i) => *i >= i32::MIN as i64 && *i <= i32::MAX as i64,
+        J::A(a) => a.iter().any(has_narrow_int),
+        J::O(m) => m.iter().any(|(k, v)| as_int_key(k).is_some() || has_narrow_int(v)),
+        _ => false,
+    }
 }
 
 const SYMS: [&str; 8] = ["a", "b", " ", "!", "\"", "\\", "\u{e9}", "e\u{301}"];
@@ -151,6 +205,24 @@ fn judge(j: &J, class: &str, out: &mut CaseOut) -> Option<Vec<u8>> {
                         String::from_utf8_lossy(exp)
                     ),
                 );
+            }
+            // the same value written through narrower Rust integer types (typed structs do that) must
+            // give the same bytes
+            // (the exhaustive key-set enumeration does this for every fourth value, the random leg always)
+            let keyset_shape = matches!(j, J::O(m) if m.len() <= 3 && m.iter().all(|(_, v)| matches!(v, J::U(u) if *u <= 3)));
+            if has_narrow_int(j) && (!keyset_shape || out.evals % 4 == 0) {
+                for policy in [1u8, 2] {
+                    out.evals += 1;
+                    match sut_canon_w(j, policy) {
+                        Ok(b) if &b == exp => {}
+                        Ok(b) => out.viol(
+                            format!("narrow-integer-types-differ:{class}"),
+                            format!("integers written as u8/u16/u32/i8/i16/i32 (policy {policy}): {:?}  reference: {:?}", String::from_utf8_lossy(&b), String::from_utf8_lossy(exp)),
+                        ),
+                        Err(e) => out.viol(format!("narrow-integer-types-refused:{class}"), e),
+                    }
+                }
+                out.h("narrow-integer-types");
             }
             // injectivity: the produced bytes must parse back to the normalised input
             match (parse_canon(got), normalise(j)) {
